@@ -830,9 +830,9 @@ func main() {
 		},
 		Cases: func(tier string) int {
 			if tier == "thorough" {
-				return 8000
+				return 6000
 			}
-			return 400
+			return 300
 		},
 		Run:         run,
 		CaseTimeout: 180 * time.Second,
